@@ -126,7 +126,7 @@ func c18JudgeFlight(v *c18V, log *c18Log, what string, checkFresh bool) {
 	keys := map[int]bool{}
 	for _, ev := range log.evs {
 		keys[ev.Op.Key] = true
-		name := fmt.Sprintf("%s call g%d#%d %s(key %d)", what, ev.G, ev.I, ev.Op.K, ev.Op.Key)
+		name := fmt.Sprintf("%s call g%d#%d %s(group %d key %d)", what, ev.G, ev.I, ev.Op.K, ev.Op.Key/3, ev.Op.Key%3)
 		if ev.NExec > 1 {
 			v.failf("%s ran its callback %d times", name, ev.NExec)
 		}
@@ -536,7 +536,7 @@ func c18ManagerInterp(t *testing.T, c c18Case) kit.Verdict {
 		}
 	}
 	for _, ev := range log.evs {
-		name := fmt.Sprintf("resource-manager Get g%d#%d(key %d)", ev.G, ev.I, ev.Op.Key)
+		name := fmt.Sprintf("resource-manager Get g%d#%d(manager %d key %d)", ev.G, ev.I, ev.Op.Key/3, ev.Op.Key%3)
 		if ev.NExec > 1 {
 			v.failf("%s ran its creator %d times", name, ev.NExec)
 		}
